@@ -241,6 +241,7 @@ theorem step_statics {O : Oracle} {c : Conf} {s : State} {op : Op} (h : Inv c s)
   | rmStatic => simp [Op.isDHCP] at hd
   | restart => simp [Op.isDHCP] at hd
   | reorder => simp [Op.isDHCP] at hd
+  | resetLeases => simp [Op.isDHCP] at hd
 
 theorem obs_reservationsOf (c : Conf) (s : State) :
     reservationsOf (obsOf c s) = ((statics s).map Lease.view).map LeaseV.norm := by
@@ -268,5 +269,6 @@ theorem obs_reservationsKept {O : Oracle} {c : Conf} {s : State} {op : Op} (h : 
   | rmStatic => rfl
   | restart => rfl
   | reorder => rfl
+  | resetLeases => rfl
 
 end AGH.C10
